@@ -7,16 +7,12 @@ namespace Model
 variable {α : Type} [Scalar α]
 open Scalar ScalarLit
 
-/-- stars of one bin: `As = Ns / Pk(α,1)`, `Ms = As * Pk(α,2)`, `ms = Ms / Ns`. A (truncated) bin thinner than `Pk`'s
-    resolution (`As` is NaN) holds stars of its lower-edge mass: `Ms = Ns·lo`. `none` is NaN (only when the zeroth moment is
-    representable and the first is not) -/
+/-- stars of one bin: `As = Ns / Pk(α,1)`, `Ms = As * Pk(α,2)`, `ms = Ms / Ns`. A (truncated) bin too thin for either moment
+    (`Ms` is NaN) holds stars of its lower-edge mass: `Ms = Ns·lo` (evolve_mf.py, "thin" rule). Always defined. -/
 def extractStar (n a lo hi : α) : Option (α × α) :=
-  match Pk a 1 lo hi with
-  | none => let Ms := n * lo; some (Ms, Ms / n)
-  | some p1 =>
-    match Pk a 2 lo hi with
-    | some p2 => let Ms := (n / p1) * p2; some (Ms, Ms / n)
-    | none => none
+  match Pk a 1 lo hi, Pk a 2 lo hi with
+  | some p1, some p2 => let Ms := (n / p1) * p2; some (Ms, Ms / n)
+  | _, _ => let Ms := n * lo; some (Ms, Ms / n)
 
 /-- remnant mean mass with the bin-centre fallback for unpopulated bins (evolve_mf.py:893-899) -/
 def remMean (lo hi N M : α) : α := if lt 0 N then M / N else (5e-1) * (lo + hi)
